@@ -33,7 +33,8 @@ CHECK_DEADLOCK FALSE
 
 # ------------------------------------------------------------------ one molecule, several descriptions
 def pipeline_session(sid, g, rng, perms=None, k=2, feedback=False, repeat=False, nonidentity=False,
-                     unordered=True, parse_back=True, note=""):
+                     unordered=True, parse_back=True, note="", plain=0):
+    """plain: the first `plain` renumberings are applied as they are (atoms listed in label order, no other listing order drawn)"""
     S = Session(sid, note)
     if rng.random() < 0.3:
         # annotations users attach under everyday names (atom numbers of a file, identifiers, weights) and a graph-level note
@@ -50,8 +51,10 @@ def pipeline_session(sid, g, rng, perms=None, k=2, feedback=False, repeat=False,
     o = S.input(g)
     n = g.number_of_nodes()
     objs = [o]
-    for p in (perms if perms is not None else [gen.random_perm(rng, n) for _ in range(k)]):
-        if unordered and rng.random() < 0.3:
+    for pi, p in enumerate(perms if perms is not None else [gen.random_perm(rng, n) for _ in range(k)]):
+        if pi < plain:
+            h = relabel(S.objs[o], p, rng)
+        elif unordered and rng.random() < 0.3:
             # the way a user of networkx renumbers a graph: atoms keep their listing order, graph-level data is kept
             h = nx.relabel_nodes(S.objs[o], {a: p[a] for a in S.objs[o].nodes}, copy=True)
         else:
